@@ -426,6 +426,10 @@ func (g *DocGen) Doc(id string) *Value {
 			m.Set("g", vNull())
 		}
 	}
+	if !g.Full && r.Chance(1, 6) {
+		// nulls as elements: a decoder makes nodes for them like for any other element
+		m.Set("nl", vSeq(vInt(r.Range(0, 9)), vNull(), vStr(Pick(r, wordPool)), vNull()))
+	}
 	for i, n := 0, r.Range(0, 2); i < n && !g.Full; i++ {
 		k := Pick(r, extraKeys)
 		if m.Get(k) == nil {
